@@ -260,4 +260,11 @@ def main():
 
 
 if __name__ == "__main__":
-    main()
+    try:
+        main()
+    except Unsupported as e:        # fail closed, cleanly: the unit is not produced, the obligation is broken
+        sys.stderr.write("Unsupported: %s\n" % e)
+        sys.exit(2)
+    except Exception as e:          # noqa -- a source the dumper cannot even read is unsupported as well
+        sys.stderr.write("Unsupported: dumper could not analyse the source (%s: %s)\n" % (type(e).__name__, e))
+        sys.exit(2)
